@@ -1,0 +1,31 @@
+//go:build verif
+
+// Verification hooks (build tag "verif"): read access to a forwarding
+// thread's private tables for the deterministic simulator under /verif.
+
+package fw
+
+import (
+	"github.com/named-data/ndnd/fw/defn"
+	"github.com/named-data/ndnd/fw/table"
+)
+
+// VerifPitCS returns the thread's PIT-CS table.
+func (t *Thread) VerifPitCS() table.PitCsTable {
+	return t.pitCS
+}
+
+// VerifDNL returns the thread's dead nonce list.
+func (t *Thread) VerifDNL() *table.DeadNonceList {
+	return t.deadNonceList
+}
+
+// VerifInterest runs the real incoming Interest pipeline synchronously.
+func (t *Thread) VerifInterest(p *defn.Pkt) {
+	t.processIncomingInterest(p)
+}
+
+// VerifData runs the real incoming Data pipeline synchronously.
+func (t *Thread) VerifData(p *defn.Pkt) {
+	t.processIncomingData(p)
+}
